@@ -294,7 +294,7 @@ class SMatrix(SSeq):
         SSeq.__init__(self, None, size, 0, elem_lo, elem_hi, name)
 
     def row(self, r):
-        return SSeq(z3.Select(self.M, _z(r)), self.length, 0, self.elem_lo, self.elem_hi, '%s_row' % self.name)
+        return SSeq(z3.Select(self.M, _z(r)), getattr(self, 'width', self.length), 0, self.elem_lo, self.elem_hi, '%s_row' % self.name)
 
     def cell(self, r, c):
         return SInt(z3.Select(z3.Select(self.M, _z(r)), _z(c)), self.elem_lo, self.elem_hi)
@@ -318,6 +318,40 @@ class SMatrix(SSeq):
             if ok is False or not c.decide(ok):
                 raise IndexError('index out of range')
         return self.row(idx)
+
+
+class SLazySeq:
+    """immutable sequence of symbolic length whose element k is computed on demand by elem(k)
+    (generator expressions over symbolic ranges, chain.from_iterable of repeats, tuple(...) of those)"""
+    tname = 'tuple'
+
+    def __init__(self, length, elem, kind='tuple'):
+        self.length = length
+        self.elem = elem
+        self.kind = kind
+
+    def at(self, k):
+        return self.elem(k)
+
+    def __getitem__(self, idx):
+        c = cur()
+        if isinstance(idx, slice):
+            raise Unsupported('slice of lazy sequence')
+        n = self.length
+        neg = (idx < 0)
+        if neg is True or (neg is not False and c.decide(neg)):
+            idx = idx + n
+        ok = s_and(idx >= 0, idx < n)
+        if ok is not True:
+            if ok is False or not c.decide(ok):
+                raise IndexError('index out of range')
+        return self.elem(idx)
+
+    def __iter__(self):
+        raise Unsupported('native iteration over lazy symbolic sequence')
+
+    def __len__(self):
+        raise Unsupported('native len() of lazy symbolic sequence')
 
 
 class SIter:
